@@ -2082,3 +2082,127 @@ func c12AnyURLLastSlash(c *Ctx, pk *packages.Package) {
 		c.Fail(rule, "anchor", token.NoPos, "no FullName derived from a slash-separated URL found in bufimageutil")
 	}
 }
+
+// c13ConstructorValidates (CONSTRUCTOR-VALIDATES): a bucket built from a caller-supplied map of path -> bytes (the
+// module bucket made of file names received from a registry) takes its keys from outside. Every key stored in the
+// bucket's own map must be the *result* of the sanitizer on every path - not a φ of the raw name and the sanitised
+// one: "already in normal form" does not mean valid ("../x", "/etc/x" and ".." are in normal form).
+func c13ConstructorValidates(c *Ctx) {
+	const rule = "CONSTRUCTOR-VALIDATES"
+	c.Rule(rule, "every key of a bucket built from a path map is a sanitizer result", 1)
+	p := c.P
+	isSan := func(fn *types.Func) bool {
+		return calleeIs(fn, "private/pkg/storage/storageutil", "ValidatePath") || calleeIs(fn, "private/pkg/normalpath", "NormalizeAndValidate")
+	}
+	var sanitized func(v ssa.Value, seen map[ssa.Value]bool) bool
+	sanitized = func(v ssa.Value, seen map[ssa.Value]bool) bool {
+		if seen[v] {
+			return true
+		}
+		seen[v] = true
+		switch x := stripConv(v).(type) {
+		case *ssa.Extract:
+			if call, ok := x.Tuple.(*ssa.Call); ok && x.Index == 0 && isSan(staticCalleeObj(&call.Call)) {
+				return true
+			}
+		case *ssa.Phi:
+			for _, e := range x.Edges {
+				if !sanitized(e, seen) {
+					return false
+				}
+			}
+			return true
+		}
+		return false
+	}
+	n := 0
+	for _, rel := range []string{"private/pkg/storage/storagemem", "private/pkg/storage/storagemem/internal"} {
+		pk := p.Pkg(rel)
+		if pk == nil {
+			continue
+		}
+		for _, sf := range p.SSAFuncsOf([]*packages.Package{pk}) {
+			// constructors taking a map keyed by path
+			var src *ssa.Parameter
+			for _, prm := range sf.Params {
+				if mt, ok := prm.Type().Underlying().(*types.Map); ok {
+					if b, ok := mt.Key().Underlying().(*types.Basic); ok && b.Kind() == types.String {
+						src = prm
+					}
+				}
+			}
+			if src == nil || sf.Signature.Recv() != nil {
+				continue
+			}
+			for _, b := range sf.Blocks {
+				for _, ins := range b.Instrs {
+					mu, ok := ins.(*ssa.MapUpdate)
+					if !ok || !dependsOnValue(mu.Key, src) {
+						continue
+					}
+					n++
+					ok2 := sanitized(mu.Key, map[ssa.Value]bool{})
+					c.Ob(rule, fmt.Sprintf("%s/key#%d", ssaFuncName(sf), n), mu.Pos(), ok2, true, "the key stored is the sanitizer's result on every path: %v", ok2)
+				}
+			}
+		}
+	}
+	if n == 0 {
+		c.Fail(rule, "anchor", token.NoPos, "no bucket constructor storing caller-supplied path keys found in storagemem")
+	}
+}
+
+// c14CloseOnce (CLOSE-ONCE): a bucket writer publishes its content when it is closed. Publishing is not idempotent
+// over time: between a first and a second Close of the same handle (`defer w.Close()` next to an explicit Close) the
+// object may have been deleted or rewritten, and publishing the old snapshot again resurrects it. A Close that marks
+// the writer closed must therefore first test that mark and return without publishing when it is already set: the
+// store `closed = true` is dominated by a test of the same field whose true edge leaves the function.
+func c14CloseOnce(c *Ctx, pkgs []*packages.Package) {
+	const rule = "CLOSE-ONCE"
+	c.Rule(rule, "a writer's Close publishes at most once", 1)
+	p := c.P
+	n := 0
+	for _, sf := range p.SSAFuncsOf(pkgs) {
+		if sf.Name() != "Close" || sf.Signature.Recv() == nil || len(sf.Params) == 0 {
+			continue
+		}
+		recv := sf.Params[0]
+		for _, b := range sf.Blocks {
+			for _, ins := range b.Instrs {
+				st, ok := ins.(*ssa.Store)
+				if !ok {
+					continue
+				}
+				fa, ok := st.Addr.(*ssa.FieldAddr)
+				if !ok || fa.X != ssa.Value(recv) {
+					continue
+				}
+				k, ok := st.Val.(*ssa.Const)
+				if !ok || k.Value == nil || k.Value.ExactString() != "true" {
+					continue
+				}
+				fname := fa.X.Type().Underlying().(*types.Pointer).Elem().Underlying().(*types.Struct).Field(fa.Field).Name()
+				if !strings.Contains(strings.ToLower(fname), "closed") {
+					continue
+				}
+				n++
+				guarded := false
+				for _, ge := range guardingEdges(b) {
+					cv, pos := condPolarity(ge.If.Cond)
+					u, ok := cv.(*ssa.UnOp)
+					if !ok || u.Op != token.MUL {
+						continue
+					}
+					gfa, ok := u.X.(*ssa.FieldAddr)
+					if ok && gfa.X == ssa.Value(recv) && gfa.Field == fa.Field && ge.Branch != pos {
+						guarded = true // we are on the not-yet-closed edge
+					}
+				}
+				c.Ob(rule, ssaFuncName(sf), st.Pos(), guarded, true, "the writer is marked closed (and published) only on the not-yet-closed edge of a test of %s: %v", fname, guarded)
+			}
+		}
+	}
+	if n == 0 {
+		c.Fail(rule, "anchor", token.NoPos, "no Close method marking a writer closed found")
+	}
+}
